@@ -111,9 +111,13 @@ def run(R):
                 # near tie: take the implementation's interval count if it is one of the two neighbours
                 if st == "ok":
                     try:
-                        nd_impl = np.asarray(out[0] if is_eq else [])
+                        if is_eq:
+                            nd_impl = np.asarray(out[0])
+                        else:   # the estimator does not expose its grid: ask equalize_domains for the grid it builds from the same inputs
+                            import dreye as _d
+                            nd_impl = np.asarray(_d.equalize_domains([d.copy() for d in doms], [a.copy() for a in arrs])[0])
                         kk = len(nd_impl) - 1
-                        if is_eq and kk in (x.numerator // x.denominator, x.numerator // x.denominator + 1) and kk >= 1:
+                        if kk in (x.numerator // x.denominator, x.numerator // x.denominator + 1) and kk >= 1:
                             kforce = kk
                             R.count("near-tie")
                     except Exception:  # noqa: BLE001
